@@ -818,6 +818,19 @@ def run(ctx):
                    "harness/props/c05.py, c05_lib.py, vlib/scen.py (generators, snapshot oracle, Coq term printers)",
                    "libm cos / sin (oracle inputs; c*c+s*s = 1 checked to 4 ulp per case); IEEE-754 arithmetic of "
                    "CPython / numpy (rounded; model exact over Q); shapely's ring orientation in Polygon.__init__"]
+    ctx.trusted.insert(3, "harness/vlib/py2coq.py + harness/props/c05_src.py: translator (symbolic execution, fail-closed) of "
+                          "commonroad/geometry/transform.py into coq/Gen/Src_transform.v on every run (static-shape numpy "
+                          "array algebra evaluated at translation time; math.cos / math.sin uninterpreted); "
+                          "C05_model_is_source proves Model/Transform.v equal to that text")
+    from props import c05_src
+    from vlib.py2coq import TranslationError
+    try:
+        changed = c05_src.generate()
+        ctx.notes.append(f"Gen/Src_transform.v regenerated from the source ({'changed' if changed else 'unchanged'})")
+    except (TranslationError, SyntaxError, OSError) as e:
+        ctx.proof_breaks.append({"theorem": "translator:Gen/Src_transform.v (C05_model_is_source)",
+                                 "where": "harness/props/c05_src.py", "log": str(e)})
+        ctx.log(f"translator failed: {e}")
     ctx.build_props(extra_targets=("Corr/C05.vo",))
     if ctx.tier == "thorough":
         ctx.coqchk()
